@@ -27,6 +27,7 @@ import (
 	"github.com/emersion/go-sasl"
 	"github.com/foxcpp/maddy/framework/config"
 	modconfig "github.com/foxcpp/maddy/framework/config/module"
+	"github.com/foxcpp/maddy/framework/exterrors"
 	"github.com/foxcpp/maddy/framework/log"
 	"github.com/foxcpp/maddy/framework/module"
 	"github.com/foxcpp/maddy/internal/auth/sasllogin"
@@ -36,6 +37,10 @@ import (
 var (
 	ErrUnsupportedMech = errors.New("Unsupported SASL mechanism")
 	ErrInvalidAuthCred = errors.New("auth: invalid credentials")
+	// ErrTemporaryAuthFailure is returned by the SASL servers when the
+	// credentials could not be verified now (exterrors.IsTemporary is true
+	// for it).
+	ErrTemporaryAuthFailure = exterrors.WithTemporary(errors.New("auth: temporary authentication failure"), true)
 )
 
 // SASLAuth is a wrapper that initializes sasl.Server using authenticators that
@@ -146,6 +151,9 @@ func (s *SASLAuth) CreateSASL(mech string, remoteAddr net.Addr, successCb func(i
 			err := s.AuthPlain(username, password)
 			if err != nil {
 				s.Log.Error("authentication failed", err, "username", username, "src_ip", remoteAddr)
+				if exterrors.IsTemporary(err) {
+					return ErrTemporaryAuthFailure
+				}
 				return ErrInvalidAuthCred
 			}
 
@@ -165,6 +173,9 @@ func (s *SASLAuth) CreateSASL(mech string, remoteAddr net.Addr, successCb func(i
 			err := s.AuthPlain(username, password)
 			if err != nil {
 				s.Log.Error("authentication failed", err, "username", username, "src_ip", remoteAddr)
+				if exterrors.IsTemporary(err) {
+					return ErrTemporaryAuthFailure
+				}
 				return ErrInvalidAuthCred
 			}
 
